@@ -134,6 +134,15 @@ def s_funcarg(rng, nval):
     prog = [["input", "a", types.fresh(), gen.rand_value(rng, True)],
             ["func", "f", [["Signal", "s"], ["int", "n"]], [], ["p", ["b", rng.choice(["+", "-", "*"]), ["v", "s"], ["b", "/", ["v", "n"], ["n", rng.choice([2, 3, -2, 7])]]], t]],
             ["sig", "x", ["call", "f", [["v", "a"], e]]]]
+    if rng.random() < 0.4:
+        # a compile-time int of the caller with the parameter's name and another value: the constant folder must
+        # resolve the name to the argument inside the body
+        prog.insert(1, ["int", "n", ["n", rng.choice([1000, -77, 12, 4096])]])
+        if rng.random() < 0.5:
+            # ... or the iterator of a loop around the call
+            prog = [prog[0], prog[2], ["for", "n", ["range", 3, 5, None],
+                                       [["place", "l", "small-lamp", ["b", "*", ["v", "n"], ["n", 2]], ["n", 20], None],
+                                        ["set", "l", "enable", ["c", ">", ["call", "f", [["v", "a"], ["b", "+", e, ["v", "n"]]]], ["n", 0]]]]]]
     return _mk(prog, "function_argument", rng, nval)
 
 
